@@ -15,7 +15,90 @@ use std::{
     time::Duration,
 };
 
-use emit::{runtime::AmbientSlot, Clock, Ctxt, Emitter, Filter, Props, Rng};
+use emit::{
+    runtime::{AmbientRuntime, AmbientSlot},
+    Clock, Ctxt, Emitter, Filter, Props, Rng,
+};
+
+/// Which slot the race is about: a fresh one, the process-wide shared slot (`Setup::init` / `try_init`) or the
+/// process-wide internal slot (`Setup::init_internal` / `try_init_internal`). Every miri execution starts from a
+/// fresh interpreter state, so the process-wide slots are empty at the start of each.
+#[derive(Clone, Copy)]
+enum SlotKind {
+    Fresh(&'static AmbientSlot),
+    Shared,
+    Internal,
+}
+
+impl SlotKind {
+    fn is_enabled(&self) -> bool {
+        match self {
+            SlotKind::Fresh(s) => s.is_enabled(),
+            SlotKind::Shared => emit::runtime::shared_slot().is_enabled(),
+            SlotKind::Internal => emit::runtime::internal_slot().is_enabled(),
+        }
+    }
+
+    fn get(&self) -> &'static AmbientRuntime<'static> {
+        match self {
+            SlotKind::Fresh(s) => s.get(),
+            SlotKind::Shared => emit::runtime::shared(),
+            SlotKind::Internal => emit::runtime::internal(),
+        }
+    }
+
+    fn name(&self) -> &'static str {
+        match self {
+            SlotKind::Fresh(_) => "fresh",
+            SlotKind::Shared => "shared",
+            SlotKind::Internal => "internal",
+        }
+    }
+}
+
+impl emit::runtime::InternalEmitter for TagEmitter {}
+impl emit::runtime::InternalFilter for TagFilter {}
+impl emit::runtime::InternalCtxt for TagCtxt {}
+impl emit::runtime::InternalClock for TagClock {}
+impl emit::runtime::InternalRng for TagRng {}
+
+/// The winner's handle must be a view of the configuration it installed: same runtime as the slot hands out,
+/// its own five components, events through it reach its own emitter.
+fn check_handle(init: emit::setup::Init<'static, TagEmitter, TagCtxt>, i: u32, kind: SlotKind, shared: &Shared, eid: u32) {
+    let mut v: Vec<String> = Vec::new();
+    if init.emitter().0 != i {
+        v.push(format!("handle_emitter initialiser {i}: Init::emitter() is emitter {}", init.emitter().0));
+    }
+    if init.ctxt().0 != i {
+        v.push(format!("handle_ctxt initialiser {i}: Init::ctxt() is ctxt {}", init.ctxt().0));
+    }
+    let rt = init.get();
+    if !std::ptr::eq(rt, kind.get()) {
+        v.push(format!("handle_runtime initialiser {i}: Init::get() is not the runtime the slot hands out"));
+    }
+    let clock = rt.clock().now().map(|t| t.to_unix().as_secs());
+    let rng = rt.rng().gen_u64().map(|r| (r & 0xff) as u32);
+    let ctxt = rt.ctxt().with_current(|p| p.pull::<u32, _>("ctxt_tag"));
+    if clock != Some(1000 + i as u64) || rng != Some(i) || ctxt != Some(i) {
+        v.push(format!(
+            "handle_torn initialiser {i} won, but its handle's runtime has clock {clock:?} rng {rng:?} ctxt {ctxt:?}"
+        ));
+    }
+    emit::emit!(rt, "through the handle", eid);
+    let got: Vec<u32> = shared.received.lock().unwrap().iter().filter(|g| g.eid == Some(eid)).map(|g| g.emitter).collect();
+    if got != vec![i] {
+        v.push(format!("handle_event initialiser {i}: an event emitted through Init::get() was received by emitters {got:?}"));
+    }
+    if !init.blocking_flush(Duration::ZERO) {
+        v.push(format!("handle_flush initialiser {i}: Init::blocking_flush returned false"));
+    }
+    let guard = init.flush_on_drop(Duration::ZERO);
+    if !std::ptr::eq(guard.inner().get(), kind.get()) {
+        v.push(format!("handle_runtime initialiser {i}: InitGuard::inner().get() is not the runtime the slot hands out"));
+    }
+    drop(guard);
+    shared.violations.lock().unwrap().extend(v);
+}
 
 #[derive(Clone, Debug, PartialEq)]
 struct Got {
@@ -111,7 +194,12 @@ fn main() {
     let obs_rounds = 3 + (splitmix(&mut st) % 4) as u32;
     let panicking_init = (splitmix(&mut st) % (n_init as u64 + 1)) as u32; // which initialiser uses init_slot (n_init = none)
 
-    let slot: &'static AmbientSlot = Box::leak(Box::new(AmbientSlot::new()));
+    // the driver picks workload seeds so that every slot kind occurs
+    let slot = match seed % 3 {
+        0 => SlotKind::Fresh(Box::leak(Box::new(AmbientSlot::new()))),
+        1 => SlotKind::Shared,
+        _ => SlotKind::Internal,
+    };
     let shared = Arc::new(Shared {
         received: Mutex::new(Vec::new()),
         filter_calls: Default::default(),
@@ -144,16 +232,30 @@ fn main() {
                 .with_ctxt(TagCtxt(i))
                 .with_clock(TagClock(i))
                 .with_rng(TagRng(i));
+            let handle_eid = 1_000_000 + i;
             let won = if use_panicking {
-                match panic::catch_unwind(AssertUnwindSafe(|| {
-                    let _init = setup.init_slot(slot);
+                match panic::catch_unwind(AssertUnwindSafe(|| match slot {
+                    SlotKind::Fresh(s) => setup.init_slot(s),
+                    SlotKind::Shared => setup.init(),
+                    SlotKind::Internal => setup.init_internal(),
                 })) {
-                    Ok(()) => "won",
+                    Ok(init) => {
+                        check_handle(init, i, slot, &shared, handle_eid);
+                        "won"
+                    }
                     Err(_) => "panicked",
                 }
             } else {
-                match setup.try_init_slot(slot) {
-                    Some(_init) => "won",
+                let r = match slot {
+                    SlotKind::Fresh(s) => setup.try_init_slot(s),
+                    SlotKind::Shared => setup.try_init(),
+                    SlotKind::Internal => setup.try_init_internal(),
+                };
+                match r {
+                    Some(init) => {
+                        check_handle(init, i, slot, &shared, handle_eid);
+                        "won"
+                    }
                     None => "lost",
                 }
             };
@@ -298,7 +400,8 @@ fn main() {
     let mut flips = flips.lock().unwrap().clone();
     flips.sort();
     let sig = format!(
-        "SIG seed={seed} inits={n_init} observers={n_obs} rounds={obs_rounds} outcomes={outcomes:?} flips={flips:?} records={}",
+        "SIG seed={seed} slot={} inits={n_init} observers={n_obs} rounds={obs_rounds} outcomes={outcomes:?} flips={flips:?} records={}",
+        slot.name(),
         shared.received.lock().unwrap().len()
     );
     // one line per execution, so that concurrent executions (miri many-seeds) cannot interleave inside it
